@@ -83,7 +83,6 @@ impl Class {
                 | Class::OkErrRefresh
                 | Class::EncapsDisabled
                 | Class::Panic
-                | Class::Reload
                 | Class::Unchanged
                 | Class::IdUnique
         )
